@@ -87,7 +87,7 @@ struct Link {
   bool iv_seen = false, layout_exact = true, used = false;
   std::vector<Ent> sent; size_t delivered = 0;              // the model: FIFO of accepted integers, index of the next undelivered one
   std::vector<std::string> hist;                             // every original frame (for cross-link injection)
-  bool tainted = false, judged = true, iv_flip_only = true;
+  bool tainted = false, judged = true, iv_touched = false;
   std::set<std::string> reflected; size_t frames_fed = 0, unjudged = 0;
 };
 
@@ -161,8 +161,9 @@ struct Sim {
     }
     return cnt;
   }
-  void secrecy(Link &l, const Z &v, const std::string &g, const std::string &line) {
+  void secrecy(Link &l, const Z &v, const std::string &g, const std::string &wline) {
     if (!cfg.enc()) return;
+    std::string line = cfg.chunked() ? wline.substr(0, wline.find('|')) : wline; // chunked: "<ciphertext>|<plain chunk counter>": compare the ciphertext
     // (a) the digit strings of the integer (and of the length-hidden integer actually encrypted) do not occur on the wire
     Z both[2] = {v, v + HIDE};
     for (int w = 0; w < 2; w++) {
@@ -171,7 +172,9 @@ struct Sim {
       for (int b = 0; b < 4; b++) if (g.find(ds[b]) != std::string::npos)
         fail(ssig("digits-visible-on-wire"), std::string("the ") + (b == 0 ? "base-62" : b == 1 ? "decimal" : "hexadecimal") + " digits of " + (w ? "m+2^256" : "m") + " occur in the wire bytes, m=" + S(v));
     }
-    // (b) equal integers give different wire bytes (same link, and the reverse direction which shares the key)
+    // (b) equal integers give different wire bytes (same link, and the reverse direction which shares the key).  Negative integers are
+    // left out: m + 2^256 may then have a single digit, and one ciphertext byte repeats by chance (they have their own signature anyway).
+    if (v < 0) return;
     std::ostringstream k; k << std::min(l.s, l.r) << "-" << std::max(l.s, l.r) << "|" << v.get_str(62);
     auto &vec = eq[k.str()]; size_t me = l.s * n + l.r;
     for (auto &pr : vec) if (pr.second == line) {
@@ -236,6 +239,18 @@ struct Sim {
   }
 
   // ---- receiver side and oracle -----------------------------------------------------------
+  // A modified IV garbles the first blklen plaintext bytes of a CFB stream, i.e. integer #0 (and #1.. while fewer than blklen digits
+  // were encrypted before them).  The oracle sees values only, so an integer equal to a directly preceding affected one counts too.
+  bool iv_explains(const Link &l, size_t h2) const {
+    if (!l.iv_touched || cfg.chunked()) return false;
+    size_t cum = 0;
+    for (size_t i = 0; i <= h2 && cum < ivlen; i++) {
+      bool eq = true; for (size_t k = i; k <= h2 && eq; k++) if (!(l.sent[k].v == l.sent[i].v)) eq = false;
+      if (eq) return true;
+      cum += Z(l.sent[i].v + HIDE).get_str(62).size();
+    }
+    return false;
+  }
   void deliver(size_t r, size_t from, const std::vector<Z> &vals) {
     ndelivered += vals.size();
     if (from >= n) { fail(sig("bad-sender-index"), "Receive returned true with sender index " + std::to_string(from)); return; }
@@ -245,21 +260,25 @@ struct Sim {
       if (l.tainted && !l.judged) { l.unjudged++; continue; }
       size_t h = l.delivered;
       if (h < l.sent.size() && l.sent[h].v == v) { l.delivered++; continue; }
-      size_t h2 = h; while (h2 < l.sent.size() && l.sent[h2].undeliverable) h2++;
+      // skips explained by two defects that have their own signature: a negative integer on an encrypted link is dropped by the
+      // receiver; a flipped IV bit garbles the first integer of a CFB stream (the IV is not covered by the tag)
+      size_t h2 = h; bool sk_neg = false, sk_iv = false;
+      while (h2 < l.sent.size() && !(l.sent[h2].v == v)) { if (l.sent[h2].undeliverable) sk_neg = true; else if (iv_explains(l, h2)) sk_iv = true; else break; h2++; }
       if (h2 > h && h2 < l.sent.size() && l.sent[h2].v == v) {
-        fail(sig("negative-integer-accepted-but-not-delivered"), "Send accepted " + S(l.sent[h].v) + " on the encrypted link " + ln + ", the receiver dropped it and went on with the next integer");
+        if (sk_neg) fail(sig("negative-integer-accepted-but-not-delivered"), "Send accepted a negative integer on the encrypted link " + ln + ", the receiver dropped it and went on with the next integer " + S(v));
+        if (sk_iv) fail(sig("iv-modified-first-message-skipped"), "after a modification of the (unauthenticated) IV of link " + ln + " the first integer " + S(l.sent[0].v) + " was not delivered but the link went on with " + S(v));
         l.delivered = h2 + 1; continue;
       }
       long idx = -1; for (size_t i = h; i < l.sent.size() && idx < 0; i++) if (l.sent[i].v == v) idx = (long)i;
       if (idx < 0) for (size_t i = h; i-- > 0 && idx < 0;) if (l.sent[i].v == v) idx = (long)i;
       std::string cls, what = "link " + ln + " delivered " + S(v) + " but the next undelivered integer of the model is " + (h < l.sent.size() ? S(l.sent[h].v) : std::string("<none>")) + " (#" + std::to_string(h) + " of " + std::to_string(l.sent.size()) + ")";
       if (!l.tainted) cls = h >= l.sent.size() ? "delivers-more-than-sent" : "fragmentation-changes-delivery";
-      else if (l.iv_flip_only && idx > (long)h) cls = "iv-bit-flip-skips-a-message";
       else if (l.reflected.count(v.get_str(62))) cls = "frame-of-reverse-link-delivered";
       else if (idx < 0) cls = "modified-frame-delivered";
       else if (idx < (long)h) cls = "replayed-frame-delivered";
       else cls = "delivery-continues-after-gap";
       fail(sig(cls), what);
+      if (cls == "frame-of-reverse-link-delivered") l.judged = false; // the foreign frame used up a sequence number: what follows is a consequence of this defect
       if (idx >= (long)h) l.delivered = (size_t)idx + 1;
     }
   }
@@ -316,7 +335,7 @@ struct Sim {
     bool frame_level = kind == F_DUP || kind == F_SWAP || kind == F_DROP || kind == F_REFLECT;
     if (!cfg.auth()) l.judged = false;
     if (frame_level && cfg.chunked()) l.judged = false; // insert/remove/replay/reorder of whole messages is promised for the stream mode only
-    if (!(kind == F_FLIP && in_iv)) l.iv_flip_only = false;
+    if (in_iv) l.iv_touched = true;
     if (kind != F_FLIP) l.layout_exact = false;
   }
   // byte-level fault at flat offset `off` of the pending bytes (0 = first byte not yet handed over)
@@ -377,6 +396,8 @@ static Z gen_value(Ctx &ctx, Sim &sim, std::string &cls, bool in_array) {
     default: v = DELIM; cls = "array-delimiter-value"; break;
   }
   if (in_array && cls == "repeat" && mpz_sizeinbase(v.get_mpz_t(), 62) > BUFSZ / 2 - 2) { v = 7; cls = "rand<=64b"; }
+  // a dropped element would desynchronise the delimiter-framed arrays of the chunked mode: keep that defect out of this protocol
+  if (v < 0 && enc && sim.array_style && sim.cfg.chunked()) { v = -v; cls = "rand<=700b"; }
   return v;
 }
 
